@@ -57,6 +57,9 @@ type Session struct {
 	FinishOnError bool
 	// Flush makes the persister flush its state and memory after every successful Save (Persister.WithFlush).
 	Flush bool
+	// SharedPe, when set (persisted mode), is used for every request instead of a new persister: one
+	// long-lived flushing persister that serves several sessions, re-pointed with WithSession.
+	SharedPe *persist.Persister
 
 	en *engine.DefaultEngine
 	// St, Ca: the state and cache objects the engine works on. Long-lived: supplied by the harness;
@@ -122,7 +125,10 @@ func errStr(err error) string {
 func (s *Session) newEngine() (*engine.DefaultEngine, *persist.Persister) {
 	en := engine.NewEngine(s.Cfg, s.Res)
 	var pe *persist.Persister
-	if s.Mode == Persisted {
+	if s.Mode == Persisted && s.SharedPe != nil {
+		pe = s.SharedPe.WithSession(s.Cfg.SessionId)
+		en = en.WithPersister(pe)
+	} else if s.Mode == Persisted {
 		store := s.Open()
 		store.SetSession(s.Cfg.SessionId)
 		pe = persist.NewPersister(store)
